@@ -19,7 +19,7 @@ claimed = {
         "wraps (R1.W). FC16/FC23 constructor limits of 124 are known findings."
         " R1.5: protocol id bytes are the constant 0 for any struct contents."
         " R1.5 also: transaction id bytes are the struct's own for any contents."
-        " R1.6: no package-level state on the construction/encoding path (shared-state rule)."),
+        " R1.6: the construction/encoding path uses no package-level variable that changes after initialisation (shared-state rule; locks, write-only atomics, sync.Once and private pool objects exempt)."),
   note=ENGINE_NOTE + " The specification table in checker/spec.go is the oracle; the random transaction id is unconstrained.",
   ref="DESIGN.md §3 C01"),
  "C02": dict(
